@@ -253,7 +253,7 @@ def main(tier, seed, only=None):
     max_rss = [0]
     # ---- (a)
     if not only or only == "a":
-        fam = list(const_family())
+        fam = list(const_family()) + families.vocabulary_family()
         if tier != "quick":
             fam += list(families.rule_family(1))
         cfgs = configs.configs(1)
